@@ -84,7 +84,14 @@ fn check_lookups_inner(ctx: &mut Ctx, out: &mut Outcome, what: &str, o: &Ontolog
     }
     // record lookups by id
     for kind in [Kind::Gene, Kind::Omim, Kind::Orpha] {
-        let recs: BTreeMap<u32, &str> = f.recs(kind).iter().map(|x| (x.id, x.name.as_str())).collect();
+        // which ids exist comes from the facts; the name a record carries is whatever iteration shows for that id
+        // (deliveries may have named it differently, and no property says which name wins)
+        let shown: BTreeMap<u32, String> = match kind {
+            Kind::Gene => o.genes().map(|g| (g.id().as_u32(), g.name().to_string())).collect(),
+            Kind::Omim => o.omim_diseases().map(|g| (g.id().as_u32(), g.name().to_string())).collect(),
+            Kind::Orpha => o.orpha_diseases().map(|g| (g.id().as_u32(), g.name().to_string())).collect(),
+        };
+        let recs: BTreeMap<u32, &str> = f.recs(kind).iter().map(|x| (x.id, shown.get(&x.id).map_or(x.name.as_str(), |n| n.as_str()))).collect();
         let mut ids: BTreeSet<u32> = BTreeSet::new();
         for &id in recs.keys() {
             ids.insert(id);
@@ -122,8 +129,15 @@ fn check_lookups_inner(ctx: &mut Ctx, out: &mut Outcome, what: &str, o: &Ontolog
         }
     }
     // gene by symbol
+    // judged against the symbols the built ontology itself shows (deliveries may have named a record differently;
+    // whichever name the record ended up with, a lookup must return a gene with exactly the symbol asked for)
+    let present_symbols: BTreeSet<String> = o.genes().map(|g| g.name().to_string()).collect();
     let mut symbols: BTreeSet<String> = f.genes.iter().map(|g| g.name.clone()).collect();
-    let present_symbols = symbols.clone();
+    symbols.extend(present_symbols.iter().cloned());
+    for g in f.genes.iter().take(8) {
+        symbols.insert(format!("{}2", g.name));
+    }
+    symbols.insert("ALT".into());
     for g in f.genes.iter().take(6) {
         symbols.insert(format!("{}x", g.name));
         symbols.insert(g.name.to_lowercase());
@@ -178,9 +192,14 @@ fn check_lookups_inner(ctx: &mut Ctx, out: &mut Outcome, what: &str, o: &Ontolog
     for d in f.orpha.iter().take(3) {
         queries.insert(d.name.clone());
     }
+    // the names the ontology itself shows (see above: the winner among differently named deliveries is unspecified)
+    let omim_shown: BTreeMap<u32, String> = o.omim_diseases().map(|g| (g.id().as_u32(), g.name().to_string())).collect();
+    for n in omim_shown.values().take(8) {
+        queries.insert(n.clone());
+    }
     ctx.counters.add("lookup.name_queries", queries.len() as u64);
     for q in &queries {
-        let want: BTreeSet<u32> = f.omim.iter().filter(|d| d.name.contains(q.as_str())).map(|d| d.id).collect();
+        let want: BTreeSet<u32> = omim_shown.iter().filter(|(_, n)| n.contains(q.as_str())).map(|(i, _)| *i).collect();
         let mut got: Vec<u32> = o.omim_diseases_by_name(q).map(|d| d.id().as_u32()).collect();
         got.sort_unstable();
         let gset: BTreeSet<u32> = got.iter().copied().collect();
